@@ -3,7 +3,7 @@ from tools.extract import Unit, Rw
 from tools.krun import Harness
 
 PROPERTY = "C12"
-PRELUDE = ["../common/base.rs", "prelude.rs"]
+PRELUDE = ["../common/base.rs", "prelude.rs", "merge.rs"]
 RSN = "crates/core/src/commands/repair/snapshots.rs"
 MOD = "crates/core/src/blob/tree/modify.rs"
 R_LOG = Rw("", "", count=None, kind="log", why="logging removed")
@@ -198,6 +198,22 @@ UNITS += [
         }""")],
          ),
 ]
+TR = "crates/core/src/blob/tree.rs"
+UNITS += [
+    # the order of merge_trees' heap: it must be the order the nodes of a tree are sorted in (the unescaped name),
+    # otherwise equal names of different trees are not adjacent in the merge and are emitted more than once
+    Unit(name="merge_heap_order", file=TR, anchor="fn cmp(&self, other: &Self) -> Ordering", within="impl Ord for SortedNode {", ret_name="r",
+         wrap_open="impl SortedNode {", wrap_close="}",
+         functions=["blob::tree::merge_trees::SortedNode::cmp (order of the merge heap)"],
+         contract="""
+    ensures
+        // BinaryHeap is a max-heap: the node popped first is the GREATEST by this cmp, so cmp is the reverse of the tree order
+        /*@heap_pops_smallest_file_name_first*/ r is Greater <==> fname_lt(unesc(self.0.name), unesc(other.0.name)),
+        /*@heap_pops_smallest_file_name_first_b*/ r is Less <==> fname_lt(unesc(other.0.name), unesc(self.0.name)),
+        /*@heap_equal_means_same_file_name*/ r is Equal <==> unesc(self.0.name) == unesc(other.0.name),
+"""),
+]
+
 KANI = []
 META = {"not_covered": [
     "merge (blob::tree::merge_trees / merge_nodes): local trait impls, BinaryHeap, `&impl Fn` parameters, mutual recursion",
